@@ -3,7 +3,7 @@
 set -e
 HERE="$(cd "$(dirname "${BASH_SOURCE[0]}")" && pwd)"
 cd "$HERE"
-export GOFLAGS=-mod=mod GOPROXY=off GOSUMDB=off GOTOOLCHAIN=local
+. "$HERE/env.sh"
 mkdir -p bin
 cd harness
 cp /repo/go.sum go.sum
